@@ -202,7 +202,13 @@ def check(tier):
 
     # (c) inputs: token streams of generated specifications (through the real scanner), their mutations, random sequences
     nspec = 60 if tier == "quick" else 1200
-    specs = list(L.FIXTURE_SPECS) + [L.gen_spec(rng) for _ in range(nspec)]
+    # long flat shapes (the stack grows with every alternative: `|` is shifted up to the end of the rule) and deep nesting
+    long_specs = ["grammar g; s = " + " | ".join('"k%d"' % i for i in range(n)) + ";" for n in (99, 150, 260)] + \
+                 ["grammar g; s = " + " ".join('"k%d"' % i for i in range(300)) + ";",
+                  "grammar g; s = " + "(" * 60 + '"x"' + ")" * 60 + ";",
+                  "grammar g; s = " + "[{" * 40 + '"x"' + "}]" * 40 + " | ;",
+                  "grammar g; " + " ".join('r%d = "x";' % i for i in range(220))]
+    specs = list(L.FIXTURE_SPECS) + long_specs + [L.gen_spec(rng) for _ in range(nspec)]
     seqs = []
     for sp in specs:
         toks, end = L.lex_kinds(hook, sp)
